@@ -223,7 +223,8 @@ func (e *env) restart() {
 	}
 	w.mu.Lock()
 	w.gen = e.gen
-	oldDetail := w.detail
+	// the detail of every job as the old runner reported it last: every snapshot until the next step compares with it
+	w.preDetail = w.detail
 	unfinished := map[int]bool{}
 	for i, sj := range w.st.Store.Jobs {
 		// unfinished in the store: the new runner will report it canceled
@@ -271,7 +272,6 @@ func (e *env) restart() {
 	w.mu.Lock()
 	for _, ji := range w.jobs {
 		jo := &w.st.Jobs[ji.idx-1]
-		jo.Faithful = oldDetail[ji.id] == w.detail[ji.id]
 		if !jo.Listed {
 			jo.Lost = true
 		}
@@ -365,6 +365,7 @@ func (e *env) step(s Step) {
 	w.mu.Lock()
 	before := w.digest()
 	dirty := w.dirty
+	w.preDetail = nil
 	w.mu.Unlock()
 	e.snapshot()
 	w.mu.Lock()
@@ -984,7 +985,11 @@ func (e *env) snapshot() {
 		nt := len(jo.Tasks)
 		keepP, keepVer, keepEpoch, keepAcc, keepRet, keepBad, keepExtra, keepLost, keepRst := jo.P, jo.Ver, jo.Epoch, jo.AccAt, jo.RetAt, jo.Bad, jo.ExtraTask, jo.Lost, jo.Rst
 		f.job.Age = w.nowMs() - f.job.CreatedAt
-		f.job.Faithful = true
+		// after a restart: the job is reported (GET /job/detail) exactly as the old runner reported it
+		f.job.Faithful = w.preDetail == nil || w.preDetail[ji.id] == detail[ji.id]
+		if !f.job.Faithful && os.Getenv("VERIF_DEBUG_DETAIL") != "" {
+			fmt.Fprintf(os.Stderr, "DETAIL %s job %d\n  old=%s\n  new=%s\n", e.sc.ID, ji.idx, w.preDetail[ji.id], detail[ji.id])
+		}
 		tasks := make([]TaskObs, nt)
 		extra := 0
 		for pos, name := range f.names {
